@@ -509,7 +509,7 @@ theorem stmtOK_holder (env : Env) (silent : Bool) (s : Stmt) (hp : env.prov.trut
   · obtain ⟨g', hg', hok⟩ := analyze_holderOK_setop env silent s hp h1 h2
     obtain ⟨g'', hg'', hE⟩ := analyze_exact_setop env silent s hp h1
     rw [hg] at hg' hg''; cases hg'; cases hg''; exact ⟨hok, hE.wf⟩
-  · exact analyze_holderOK_plain env silent s h1 g hg
+  · exact analyze_holderOK_plain env silent s hp h1 g hg
 
 /-- the environment `Runner.analyzeAll` analyses a statement in -/
 def envOf (c : Runner.Config) (p : Runner.Provider) : Env := ⟨c.cfgDefault, c.importDefault, p.view, c.ro, c.revStar⟩
@@ -566,7 +566,7 @@ theorem analyzeAll_holderOK (c : Runner.Config) : ∀ (ss : List Stmt) (p p' : R
     over one SELECT block of base tables, every qualifier in scope), run by the model of `LineageRunner._eval` without metadata,
     yields a combined graph in which every column edge between table-owned columns lies over the table edge of its owners (the
     statements may also carry an explicit column list, `fragStmtCols`, or be built over a set operation of flat branches,
-    `fragStmtSetop`, or be plain SELECTs over base tables, DROPs, CREATE TABLE (with column definitions or LIKE) and statements that move no data, `plainStmt`: `StmtOK`) —
+    `fragStmtSetop`, or be plain SELECTs over base tables, DROPs, CREATE TABLE (with column definitions or LIKE), INSERT … VALUES and statements that move no data, `plainStmt`: `StmtOK`) —
     provided the history leaves no unresolved column edge to the tail of `_build_digraph` (with shared unresolved columns the
     clause fails on the unchanged code: finding D11).
 
@@ -672,11 +672,11 @@ example : ∀ s ∈ [exMid, exTgt, exTgtCols, exUnionStmt], StmtOK (envOf {} ⟨
 /-- a plain SELECT, a DROP and a statement that moves no data are admitted too -/
 example : ∀ s ∈ [Stmt.query (.select false [.mk (.col [] "a") none false] [.mk (.table ["t"] none false) []] none [] none) false,
     Stmt.drop false false ["mid"], Stmt.noop "use_statement" "use db", Stmt.createTableLike ["t2"] ["s", "t1"],
-    Stmt.createTable ["t3"] false [("a", "int"), ("b", "int")]],
+    Stmt.createTable ["t3"] false [("a", "int"), ("b", "int")], Stmt.insertValues ["t3"] (some ["a", "b"]) [[.lit "1", .lit "2"]]],
     StmtOK (envOf {} ⟨[], []⟩) s := by
   intro s hs
   simp only [List.mem_cons, List.mem_nil_iff, or_false] at hs
-  rcases hs with rfl | rfl | rfl | rfl | rfl <;> exact Or.inr (Or.inr (by decide +kernel))
+  rcases hs with rfl | rfl | rfl | rfl | rfl | rfl <;> exact Or.inr (Or.inr (by decide +kernel))
 
 /-- **deviation witness** (the root cause of findings D32 and K6, on a statement no engine accepts): without `stmtScoped` the
     statement‑level theorem fails — the model, like the code (`Column.to_source_columns` falls back to `Table(qualifier)`,
